@@ -80,6 +80,10 @@ var _ HandleSet = (*DefaultStorage)(nil)
 // Add implements the [Set] interface for *DefaultStorage.  It skips records
 // without hostnames, ignores duplicates and squashes the rest.
 func (s *DefaultStorage) Add(rec *Record) {
+	if len(rec.Names) == 0 {
+		return
+	}
+
 	names := s.names[rec.Addr]
 	if names == nil {
 		names = &namesSet{
